@@ -284,6 +284,32 @@ func qualifiedName(x ast.Expr) string {
 	}
 }
 
+// isBuiltinFunc reports whether fn is an identifier that resolves to
+// a predeclared (universe scope) function and not to a user-defined namesake.
+func isBuiltinFunc(ctx *linter.CheckerContext, fn ast.Expr) bool {
+	id, ok := fn.(*ast.Ident)
+	if !ok {
+		return false
+	}
+	_, ok = ctx.TypesInfo.ObjectOf(id).(*types.Builtin)
+	return ok
+}
+
+// isPkgFunc reports whether fn is a `pkg.f` selector where pkg is
+// a package name that refers to the package imported from pkgPath.
+func isPkgFunc(ctx *linter.CheckerContext, fn ast.Expr, pkgPath string) bool {
+	sel, ok := fn.(*ast.SelectorExpr)
+	if !ok {
+		return false
+	}
+	id, ok := sel.X.(*ast.Ident)
+	if !ok {
+		return false
+	}
+	pkgName, ok := ctx.TypesInfo.ObjectOf(id).(*types.PkgName)
+	return ok && pkgName.Imported().Path() == pkgPath
+}
+
 // identOf returns identifier for x that can be used to obtain associated types.Object.
 // Returns nil for expressions that yield temporary results, like `f().field`.
 func identOf(x ast.Node) *ast.Ident {
